@@ -101,6 +101,11 @@ func (cons *VgaTextConsole) Fill(x, y, width, height uint32, fg, bg uint8) {
 		rowOffset, colOffset uint32
 	)
 
+	// an empty grid has no cells to fill
+	if cons.width == 0 || cons.height == 0 {
+		return
+	}
+
 	// clip rectangle
 	if x == 0 {
 		x = 1
